@@ -16,13 +16,14 @@ from mc.ref import interp, tracegrammar
 
 ALPHA_FULL = ["src", "srcdef", "paysrc", "mul", "muldef", "ctxw", "fail", "badw", "interrupt", "abort", "sysexit", "sum", "probe_factor",
               "ren_r_factor", "del_factor", "slice_mul", "sweep_op", "sink_ctx", "bogus", "probe_nokey", "unknown", "two",
-              "slice_mul3", "slice_muldef", "sweep_two", "sweep_probe", "kwtwo", "kwgainprobe", "nestw", "failempty"]
+              "slice_mul3", "slice_muldef", "sweep_two", "sweep_probe", "kwtwo", "kwgainprobe", "nestw", "failempty", "muldefnone", "mulinf"]
 # pipelines holding two DIFFERENT generated classes of the same family (same module + qualname, different parameter tables / bindings)
 SAME_FAMILY_PROGS = [
     ("sweep_src", "slice_mul3", "slice_muldef"), ("sweep_src", "slice_muldef", "slice_mul3"), ("sweep_src", "slice_mul", "slice_muldef", "sum"),
     ("src", "sweep_op", "sum", "sweep_two"), ("src", "sweep_two", "sum", "sweep_op"), ("src", "sweep_two", "slice_mul3", "slice_muldef", "sum"),
     ("src", "sweep_probe", "sweep_two", "sum"), ("src", "probe_r", "probe_factor", "tmpl_a", "tmpl_path"), ("src", "probe_factor", "ren_factor_a", "probe_r", "ren_r_factor"),
     ("sweep_src", "slice_probe", "sum", "probe_r"), ("src", "sink_cfg", "sink_ctx", "sink"), ("src", "mul3", "mul", "muldef"),
+    ("src", "sweep_two", "sum", "sweep_two_b"), ("src", "sweep_two_b", "sum", "sweep_two", "sum"), ("src", "mulnone", "muldefnone"), ("src", "mulinf", "probe_r"),
 ]
 ALPHA_SMALL = ["src", "mul", "muldef", "fail", "badw", "interrupt", "abort", "sum", "probe_factor", "ren_r_factor", "bogus", "probe_nokey", "sink"]
 
